@@ -96,7 +96,7 @@ func genC05(t *rapid.T) *c05Case {
 	return c
 }
 
-const c05HugePixels = 1 << 24 // declared areas above this run through the header-only entry points
+const c05HugePixels = 1 << 22 // declared areas above this run through the header-only entry points
 
 func checkImageWellFormed(img image.Image) error {
 	b := img.Bounds()
@@ -282,12 +282,15 @@ func checkC05(c *c05Case, o *core.Obs) error {
 	data := c.Data
 	declared := riffwalk.DeclaredPixels(data)
 	full := declared <= c05HugePixels
-	r, done := runC05Guarded(data, full, 20*time.Second)
+	// Time is only a watchdog: the limits are generous (inputs here take milliseconds; a 4-Mpixel
+	// canvas with a handful of frames takes about a second) and scale with the declared size, and an
+	// expiry must reproduce with a much longer limit before it counts as a hang.
+	limit := 30*time.Second + time.Duration(declared/20000)*time.Millisecond
+	r, done := runC05Guarded(data, full, limit)
 	if !done {
-		// confirm in isolation with three times the limit before calling it a hang
-		r, done = runC05Guarded(data, full, 60*time.Second)
+		r, done = runC05Guarded(data, full, 6*limit)
 		if !done {
-			return fmt.Errorf("hang: entry points did not return within 60 s on a %d-byte input (declared pixels %d)", len(data), declared)
+			return fmt.Errorf("hang: entry points did not return within %v on a %d-byte input (declared pixels %d)", 6*limit, len(data), declared)
 		}
 		o.Label("slow-but-finished")
 	}
